@@ -32,7 +32,9 @@ PathOf(e) == IF e.op \in HandleOps THEN handles[e.h].path ELSE e.p
 
 \* the call is one the specification speaks about (its guards hold)
 InScope(e) ==
-    CASE e.op = "open"      -> e.h \in Handles /\ e.p \in Paths /\ ~handles[e.h].open /\ ~WriterOn(e.p) /\ e.mode \in WriteModes
+    CASE e.op = "open"      -> e.h \in Handles /\ e.p \in Paths /\ ~OtherOn(e.h, e.p) /\ e.mode \in AllModes
+      [] e.op = "hwrite"    -> e.h \in Handles /\ handles[e.h].open /\ handles[e.h].mode # "r"
+      [] e.op = "hread"     -> e.h \in Handles /\ handles[e.h].open /\ e.sel \in ReadSels
       [] e.op \in HandleOps -> e.h \in Handles /\ handles[e.h].open
       [] e.op \in {"write", "append"} -> e.p \in Paths /\ ~WriterOn(e.p) /\ Len(e.chunk.rows) >= 1
       [] e.op \in {"read", "readhdr"} -> e.p \in Paths
@@ -41,7 +43,7 @@ InScope(e) ==
 Act(e) ==
     \/ e.op = "open"    /\ Open(e.h, e.p, e.mode, e.delim)
     \/ e.op = "hwrite"  /\ HWrite(e.h, e.chunk, e.hdr)
-    \/ e.op = "hread"   /\ HRead(e.h)
+    \/ e.op = "hread"   /\ HReadSel(e.h, e.sel)
     \/ e.op = "hclose"  /\ HClose(e.h)
     \/ e.op = "write"   /\ WriteFile(e.p, e.chunk, e.hdr, e.delim)
     \/ e.op = "append"  /\ AppendReopen(e.p, e.chunk, e.hdr, e.delim)
@@ -67,7 +69,7 @@ Clause(c, e) ==
     CASE c = "unexpected_error" -> res'.err \in {"any", "rejected", "mayreject"} \/ e.res.err = "none"
       [] c = "not_rejected"     -> res'.err \in {"any", "none", "mayreject"} \/ e.res.err # "none"
       [] c = "read_rows"        -> (GotData(e) /\ res'.op = "read") => e.res.rows = res'.rows
-      [] c = "read_descr"       -> GotData(e) => SameFields(e.res.descr, res'.descr)
+      [] c = "read_descr"       -> GotData(e) => SameFields(e.res.descr, res'.descr)      \* ("cols": a column subset)
       [] c = "read_header"      -> GotData(e) => e.res.hdr = res'.hdr
       [] c = "read_count"       -> GotData(e) => e.res.size = res'.size
       [] c = "read_delim"       -> GotData(e) => e.res.delim = res'.delim
